@@ -220,7 +220,11 @@ func (g *caseGen) message(trailersLikely bool) []frameSpec {
 		p, pad := g.payload()
 		fr = append(fr, frameSpec{kind: "data", payload: p, pad: pad, es: i == nData-1 && !trailers && !rst})
 	}
-	if trailers {
+	if trailers && g.instr && g.r.Chance(1, 4) {
+		// trailers without any field: the block is a dynamic table size update and nothing else
+		fr = append(fr, frameSpec{kind: "hdr", fields: nil, es: !rst, prio: "-"})
+		core.Count("gen:trailers")
+	} else if trailers {
 		fr = append(fr, frameSpec{kind: "hdr", fields: g.fields(1+g.r.Intn(2), true), es: !rst, prio: "-"})
 		core.Count("gen:trailers")
 	}
@@ -347,8 +351,12 @@ func (g *caseGen) send(e int, sid uint32) {
 			}
 			return
 		}
-		if g.instr && f.kind == "hdr" && !isBig(f.fields) && f.prio != "0/0/0" && g.exhaust == nil && g.r.Chance(4, 5) {
-			g.emit("hb %s %d %s %s %s", en, sid, b01(f.es), f.prio, InstrsTok(g.represent(e, f.fields)))
+		if g.instr && f.kind == "hdr" && !isBig(f.fields) && f.prio != "0/0/0" && g.exhaust == nil && (len(f.fields) == 0 || g.r.Chance(4, 5)) {
+			op := "hb"
+			if len(f.fields) == 0 && g.r.Chance(1, 2) || g.r.Chance(1, 8) {
+				op = "hbc" // HEADERS + empty CONTINUATION
+			}
+			g.emit("%s %s %d %s %s %s", op, en, sid, b01(f.es), f.prio, InstrsTok(g.represent(e, f.fields)))
 			g.blockDone(e)
 			return
 		}
@@ -409,6 +417,9 @@ func (g *caseGen) represent(e int, fs []Field) []Instr {
 		}
 		upd(pick())
 		core.Count("gen:hb-voluntary-size-update")
+	}
+	if len(fs) == 0 && len(is) == 0 {
+		upd(pick()) // a block without fields still has to be a block: a size update and nothing else
 	}
 	for _, f := range fs {
 		exact, name := -1, -1
